@@ -17,6 +17,7 @@ var byteAlphabet = [][]byte{
 	[]byte("〺"), []byte("〹"), []byte("်"), []byte("္"), []byte("º"), []byte("¹"), []byte("\U00010039"), {0xE3}, {0xE1},
 	// the decoder's error value correctly encoded and cut; truncated 3- and 4-byte sequences
 	[]byte("\uFFFD"), {0xEF, 0xBF}, {0xF0, 0x9F}, {0xE3, 0x81}, []byte("\u200b"),
+	[]byte("\r"), []byte("\r\n"), []byte("\n\r"),
 }
 
 func genBytesAlpha(rt *rapid.T, label string, maxTok int) []byte {
